@@ -322,6 +322,22 @@ func (in *Interp) domLook(c *Term) domVerdict {
 	}
 	x, k := in.support(c)
 	if k != 1 {
+		// Boolean structure over single-variable conditions: three-valued evaluation
+		if r := in.eval3(c, 0); r != 0 {
+			v := domVerdict{decided: true, value: r > 0}
+			in.ex.domDecided.Add(1)
+			if domainMode == "check" || in.recheck {
+				in.ex.domRechecked.Add(1)
+				neg := c
+				if v.value {
+					neg = in.tab.Not(c)
+				}
+				if verdict, _ := in.check(neg, false); verdict != Unsat {
+					panic(engineErr("domain decision (3-valued) disagrees with z3 on term %d", c.id))
+				}
+			}
+			return v
+		}
 		return domVerdict{}
 	}
 	D := in.domOf(x)
@@ -333,7 +349,11 @@ func (in *Interp) domLook(c *Term) domVerdict {
 	} else if T.empty() {
 		v.decided, v.value = true, false
 	}
-	if v.decided && domainMode == "check" {
+	if v.decided {
+		in.ex.domDecided.Add(1)
+	}
+	if v.decided && (domainMode == "check" || in.recheck) {
+		in.ex.domRechecked.Add(1)
 		neg := c
 		if v.value {
 			neg = in.tab.Not(c)
@@ -363,4 +383,58 @@ func describeSet(b bset) string {
 		lo = hi
 	}
 	return sb.String()
+}
+
+// eval3 evaluates a Boolean combination of single-variable conditions over the current value
+// sets: +1 implied true, -1 implied false, 0 unknown.
+func (in *Interp) eval3(c *Term, depth int) int {
+	if c.w != 0 || depth > 40 {
+		return 0
+	}
+	if v, ok := in.tab.cval(c); ok {
+		if v == 1 {
+			return 1
+		}
+		return -1
+	}
+	if x, k := in.support(c); k == 1 {
+		D := in.domOf(x)
+		T := in.truthSet(c, x).and(D)
+		if D.andNot(T).empty() {
+			return 1
+		}
+		if T.empty() {
+			return -1
+		}
+		return 0
+	}
+	switch c.op {
+	case ONot:
+		return -in.eval3(c.a, depth+1)
+	case OAnd:
+		a := in.eval3(c.a, depth+1)
+		if a < 0 {
+			return -1
+		}
+		b := in.eval3(c.b, depth+1)
+		if b < 0 {
+			return -1
+		}
+		if a > 0 && b > 0 {
+			return 1
+		}
+	case OOr:
+		a := in.eval3(c.a, depth+1)
+		if a > 0 {
+			return 1
+		}
+		b := in.eval3(c.b, depth+1)
+		if b > 0 {
+			return 1
+		}
+		if a < 0 && b < 0 {
+			return -1
+		}
+	}
+	return 0
 }
